@@ -159,6 +159,102 @@ func (ex *c13Exchange) helperExaminesStatus() string {
 	return ""
 }
 
+// ---------- facts about a response (usable across helper boundaries) ----------
+
+func c13RespBase(resp map[ssa.Value]bool) func(ssa.Value) bool {
+	return func(b ssa.Value) bool { return resp[b] }
+}
+
+// c13StatusFact: resp.StatusCode is known to equal one of ks.
+func c13StatusFact(ks []int64) c13Fact {
+	return c13Fact{ID: "status=" + c13Ints(ks), Use: func(fn *ssa.Function, resp map[ssa.Value]bool, bind map[ssa.Value]int64) ([]Edge, []ssa.Value) {
+		t := c13TestsOfBound(fn, c13FieldLoads(fn, c13PkgHTTP, "Response", "StatusCode", c13RespBase(resp)), bind)
+		var out []Edge
+		for _, k := range ks {
+			out = append(out, t.eq[k]...)
+		}
+		return out, nil
+	}}
+}
+
+// c13LengthFact: resp.ContentLength is unknown (-1) or equals the Size of a descriptor of the function.
+var c13LengthFact = c13Fact{ID: "length", Use: func(fn *ssa.Function, resp map[ssa.Value]bool, _ map[ssa.Value]int64) ([]Edge, []ssa.Value) {
+	cl := c13FieldLoads(fn, c13PkgHTTP, "Response", "ContentLength", c13RespBase(resp))
+	size := c13FieldLoads(fn, c13PkgOCI, "Descriptor", "Size", nil)
+	class := func(cond ssa.Value) (bool, bool) {
+		op, other, ok := c13CmpNorm(cond, cl)
+		if !ok {
+			return false, false
+		}
+		if size[other] {
+			return op == token.EQL, op == token.NEQ
+		}
+		k, isC := c13ConstInt(other)
+		if !isC {
+			return false, false
+		}
+		switch { // edges on which the length is unknown (negative)
+		case op == token.EQL && k < 0, op == token.LSS && k <= 0, op == token.LEQ && k < 0:
+			return true, false
+		case op == token.NEQ && k == -1, op == token.GEQ && k == 0, op == token.GTR && k == -1:
+			return false, true
+		}
+		return false, false
+	}
+	return c13FactEdgesOfConds(fn, class), nil
+}}
+
+// c13MediaTypeFact: the parsed Content-Type of resp equals the MediaType of a descriptor of the function.
+var c13MediaTypeFact = c13Fact{ID: "mediatype", Use: func(fn *ssa.Function, resp map[ssa.Value]bool, _ map[ssa.Value]int64) ([]Edge, []ssa.Value) {
+	mt := map[ssa.Value]bool{}
+	for _, p := range CallsTo(fn, "mime.ParseMediaType") {
+		if r := ResultOf(p, 0); r != nil {
+			for a := range Aliases(r) {
+				mt[a] = true
+			}
+		}
+	}
+	want := c13FieldLoads(fn, c13PkgOCI, "Descriptor", "MediaType", nil)
+	eq, _ := c13EqualEdges(fn, mt, want)
+	return eq, nil
+}}
+
+// c13VerifiedFact: the digest verifier V accepted resp.
+func c13VerifiedFact(V *ssa.Function) c13Fact {
+	return c13Fact{ID: "verified", Use: func(fn *ssa.Function, resp map[ssa.Value]bool, _ map[ssa.Value]int64) ([]Edge, []ssa.Value) {
+		var edges []Edge
+		var direct []ssa.Value
+		for _, v := range c13CallsToFn(fn, V) {
+			if _, isCall := v.(*ssa.Call); !isCall || !c13RootsIn(v.Common().Args[0], resp) {
+				continue
+			}
+			if e := ErrOf(v); e != nil {
+				nilE, _, _ := NilTests(fn, Aliases(e))
+				edges = append(edges, nilE...)
+				direct = append(direct, e)
+			}
+		}
+		return edges, direct
+	}}
+}
+
+// c13CheckHelpers: functions of the package with a *http.Response parameter and
+// the single result `error` that establish the fact for that parameter.
+func c13CheckHelpers(p *Prog, fact c13Fact) map[*ssa.Function]int {
+	out := map[*ssa.Function]int{}
+	for _, h := range p.FuncsOfPkg(c13PkgRemote) {
+		if !c13ResultsAre(h, [2]string{"", "error"}) {
+			continue
+		}
+		for i, prm := range h.Params {
+			if c13IsPtrTo(prm.Type(), c13PkgHTTP, "Response") && c13HelperEstablishes(h, i, fact, 2) {
+				out[h] = i
+			}
+		}
+	}
+	return out
+}
+
 func c13R1(c *Ctx) {
 	const R1 = "C13.R1.status-gates-success"
 	c.Expect(R1, 16)
@@ -168,12 +264,7 @@ func c13R1(c *Ctx) {
 		return
 	}
 	for _, ex := range exs {
-		req := c13RequestArg(ex.site)
-		var methods []string
-		ok := false
-		if req != nil {
-			methods, ok = c13MethodsOfRequest(req)
-		}
+		methods, ok := c13MethodsOfSite(ex.site, 3)
 		if !ok {
 			c.Undecided(R1, ex.key, ex.site.Pos(), "cannot resolve the request of this exchange to http.NewRequestWithContext with a constant method; the expected status cannot be looked up")
 			continue
@@ -185,15 +276,15 @@ func c13R1(c *Ctx) {
 		}
 		ex.allowed, ex.role = allowed, role
 		b, i := c13AfterSite(ex.site)
-		cutOK := newCut().Edges(ex.eqEdges(allowed...)...)
-		bad := c13SuccessEscapes(ex.fn, b, i, cutOK, nil)
+		cutOK, direct := c13FactCut(ex.fn, ex.resp, c13StatusFact(allowed), 3)
+		bad := c13SuccessEscapes(ex.fn, b, i, cutOK, direct)
 		key := ex.key + "|" + role + "→" + c13Ints(allowed)
 		if bad == nil {
 			c.OK(R1, key, ex.site.Pos(), "every path from the exchange to a possibly-nil error return takes an edge resp.StatusCode == "+c13Ints(allowed))
 			continue
 		}
 		if h := ex.helperExaminesStatus(); h != "" {
-			c.Undecided(R1, key, bad.Ret.Pos(), "the response status is examined inside helper "+h+", which this rule does not follow")
+			c.Undecided(R1, key, bad.Ret.Pos(), "the response status is examined inside helper "+h+" in a way this rule cannot summarise (the helper does not return an error that is nil only for status "+c13Ints(allowed)+")")
 			continue
 		}
 		if len(ex.tests.other) > 0 {
@@ -240,7 +331,7 @@ func c13R2(c *Ctx) {
 	c.Expect(RV, 12)
 	c.Expect(RL, 4)
 	c.Expect(RM, 1)
-	c.Expect(RP, 13)
+	c.Expect(RP, 10) // 6 verifier calls + 4 generator calls; parse calls and helper calls come on top
 	c.Expect(RD, 3)
 	c.Expect(RG, 3)
 
@@ -260,10 +351,23 @@ func c13R2(c *Ctx) {
 	c13VerifierBody(c, RD, V)
 
 	// --- every call of the verifier gates the success paths of its status branch
+	verified := c13VerifiedFact(V)
+	checkers := c13CheckHelpers(c.P, verified)
 	for _, f := range c.P.FuncsOfPkg(c13PkgRemote) {
 		calls := c13CallsToFn(f, V)
+		nDirect := len(calls)
+		for h := range checkers {
+			if h != f {
+				calls = append(calls, c13CallsToFn(f, h)...)
+			}
+		}
 		for n, v := range calls {
 			key := fmt.Sprintf("%s|verify#%d", FnName(f), n+1)
+			respArg := v.Common().Args[0]
+			if n >= nDirect {
+				respArg = v.Common().Args[checkers[StaticCallee(v)]]
+				key = fmt.Sprintf("%s|verify-via:%s", FnName(f), FnName(StaticCallee(v)))
+			}
 			if _, isCall := v.(*ssa.Call); !isCall {
 				c.Violation(RV, key, v.Pos(), "the digest verification is deferred or run in a goroutine: its verdict cannot gate the result")
 				continue
@@ -285,7 +389,7 @@ func c13R2(c *Ctx) {
 			}
 			var starts []start
 			for _, ex := range exOf[f] {
-				if !c13RootsIn(v.Common().Args[0], ex.resp) {
+				if !c13RootsIn(respArg, ex.resp) {
 					continue
 				}
 				for k, es := range ex.tests.eq {
@@ -318,7 +422,12 @@ func c13R2(c *Ctx) {
 			}
 			c.Check(RV, key, v.Pos(), ok, ifelse(ok, "every success path of the status branch passes the nil edge of the verification (or returns its verdict)", detail))
 			// the expected digest is the caller's: derives from a parameter of f
-			c13ExpectedFromParam(c, RV, key, f, v)
+			if n < nDirect {
+				c13ExpectedFromParam(c, RV, key, f, v)
+			} else {
+				r := ErrFlow(v, ErrFlowOpts{})
+				c.Check(RP, key, v.Pos(), r.OK, r.How+r.Detail)
+			}
 		}
 	}
 
@@ -329,50 +438,41 @@ func c13R2(c *Ctx) {
 		if !c13HasParam(f, c13PkgOCI, "Descriptor") || !c13ResultsAre(f, [2]string{"io", "ReadCloser"}, [2]string{"", "error"}) {
 			continue
 		}
-		ok200 := ex.eqEdges(200)
-		if len(ok200) == 0 {
-			continue // R1 reports
-		}
-		cl := c13FieldLoads(f, c13PkgHTTP, "Response", "ContentLength", func(b ssa.Value) bool { return ex.resp[b] })
-		size := c13FieldLoads(f, c13PkgOCI, "Descriptor", "Size", nil)
-		clTests := c13TestsOf(f, cl)
-		eq, _ := c13EqualEdges(f, cl, size)
-		cutL := newCut().Edges(eq...).Edges(clTests.lt0...)
 		b, i := c13AfterSite(ex.site)
-		bad := c13SuccessEscapes(f, b, i, cutL, nil)
+		cutL, dirL := c13FactCut(f, ex.resp, c13LengthFact, 3)
+		bad := c13SuccessEscapes(f, b, i, cutL, dirL)
 		key := FnName(f) + "|Content-Length~target.Size"
+		cl := c13FieldLoads(f, c13PkgHTTP, "Response", "ContentLength", c13RespBase(ex.resp))
 		switch {
 		case bad == nil:
 			c.OK(RL, key, ex.site.Pos(), "every success path establishes ContentLength == -1 or ContentLength == target.Size")
-		case len(eq) == 0 && len(cl) > 0 && c13UsedInOtherCompare(f, cl, clTests):
+		case len(cl) > 0 && len(c13TestsOf(f, cl).other) > 0:
 			c.Undecided(RL, key, bad.Ret.Pos(), "Content-Length is compared in a shape that is not interpreted (neither ==/!= against the descriptor size nor a sign test)")
 		default:
 			c.Violation(RL, key, bad.Ret.Pos(), fmt.Sprintf("a path reaches the return at %s (error %s) without comparing resp.ContentLength with the requested descriptor's Size: a body of the wrong length is handed back",
 				c.P.Pos(bad.Ret.Pos()), describe(bad.Val)))
 		}
-		// media type: only where the function parses the Content-Type (manifests)
-		pm := CallsTo(f, "mime.ParseMediaType")
-		if len(pm) == 0 {
-			continue
-		}
-		mt := map[ssa.Value]bool{}
-		for _, p := range pm {
-			if r := ResultOf(p, 0); r != nil {
-				for a := range Aliases(r) {
-					mt[a] = true
-				}
+		// media type: where the Content-Type of the response is parsed (manifests), in the function or a helper it hands the response to
+		isPM := func(n string, _ ssa.CallInstruction) bool { return n == "mime.ParseMediaType" }
+		parses := len(CallsTo(f, "mime.ParseMediaType")) > 0
+		hcalls, _ := c13RespParamCalls(f, ex.resp)
+		for _, hc := range hcalls {
+			if reachesCall(StaticCallee(hc), 2, isPM) {
+				parses = true
 			}
 		}
-		want := c13FieldLoads(f, c13PkgOCI, "Descriptor", "MediaType", nil)
-		eqM, _ := c13EqualEdges(f, mt, want)
-		badM := c13SuccessEscapes(f, b, i, newCut().Edges(eqM...), nil)
+		if !parses {
+			continue
+		}
+		cutM, dirM := c13FactCut(f, ex.resp, c13MediaTypeFact, 3)
+		badM := c13SuccessEscapes(f, b, i, cutM, dirM)
 		keyM := FnName(f) + "|Content-Type~target.MediaType"
 		if badM == nil {
-			c.OK(RM, keyM, pm[0].Pos(), "every success path establishes parsed Content-Type == target.MediaType")
+			c.OK(RM, keyM, ex.site.Pos(), "every success path establishes parsed Content-Type == target.MediaType")
 		} else {
 			c.Violation(RM, keyM, badM.Ret.Pos(), fmt.Sprintf("a path reaches the return at %s without the parsed Content-Type having been found equal to target.MediaType", c.P.Pos(badM.Ret.Pos())))
 		}
-		for _, p := range pm {
+		for _, p := range CallsTo(f, "mime.ParseMediaType") {
 			r := ErrFlow(p, ErrFlowOpts{})
 			c.Check(RP, FnName(f)+"|mime.ParseMediaType", p.Pos(), r.OK, r.How+r.Detail)
 		}
@@ -397,10 +497,6 @@ func c13R2(c *Ctx) {
 			}
 		}
 	}
-}
-
-func c13UsedInOtherCompare(f *ssa.Function, vals map[ssa.Value]bool, t *c13IntTests) bool {
-	return len(t.other) > 0
 }
 
 // c13ExpectedFromParam: the digest handed to the verifier comes from the
@@ -505,6 +601,49 @@ func c13VerifierBody(c *Ctx, rule string, V *ssa.Function) {
 	c.Check(rule, vn+"|parse-failure-is-error", p.Pos(), r.OK, r.How+r.Detail)
 }
 
+// c13IsHeaderDigest: r is the digest parsed from a response header: result 0
+// of digest.Parse, or of an in-module helper all of whose non-empty results are.
+func c13IsHeaderDigest(r ssa.Value, depth int) bool {
+	ex, ok := r.(*ssa.Extract)
+	if !ok || ex.Index != 0 {
+		return false
+	}
+	call, ok := ex.Tuple.(*ssa.Call)
+	if !ok {
+		return false
+	}
+	if n := CalleeName(call); n == c13PkgDigest+".Parse" || n == "digest.Parse" {
+		for _, a := range Roots(call.Call.Args[0]) {
+			if g, isCall := a.(*ssa.Call); isCall && CalleeName(g) == "(net/http.Header).Get" {
+				return true
+			}
+		}
+		return false
+	}
+	h := StaticCallee(call)
+	return h != nil && depth > 0 && inModule(h) && len(h.Blocks) > 0 && c13HasParam(h, c13PkgHTTP, "Response") && c13ReturnsHeaderDigest(h, depth-1)
+}
+
+func c13ReturnsHeaderDigest(h *ssa.Function, depth int) bool {
+	if h.Signature.Results().Len() == 0 || !c13IsNamed(h.Signature.Results().At(0).Type(), c13PkgDigest, "Digest") {
+		return false
+	}
+	some := false
+	for _, a := range RetAtoms(h, 0) {
+		if s, isConst := constString(a.Val); isConst && s == "" {
+			continue
+		}
+		if _, isZero := a.Val.(zeroMarker); isZero {
+			continue
+		}
+		if !c13IsHeaderDigest(a.Val, depth) {
+			return false
+		}
+		some = true
+	}
+	return some
+}
+
 // c13Generator: descriptor built from a response: known length; digest agreement.
 func c13Generator(c *Ctx, RL, RG, RP string, g, V *ssa.Function) {
 	gn := FnName(g)
@@ -534,21 +673,14 @@ func c13Generator(c *Ctx, RL, RG, RP string, g, V *ssa.Function) {
 		call, ok := ex.Tuple.(*ssa.Call)
 		return ok && CalleeName(call) == "(~/registry.Reference).Digest"
 	}
-	isServerDigest := func(r ssa.Value) bool {
-		ex, ok := r.(*ssa.Extract)
-		if !ok || ex.Index != 0 {
-			return false
-		}
-		call, ok := ex.Tuple.(*ssa.Call)
-		return ok && (CalleeName(call) == c13PkgDigest+".Parse" || CalleeName(call) == "digest.Parse")
-	}
+	isServerDigest := func(r ssa.Value) bool { return c13IsHeaderDigest(r, 3) }
 	var calc []ssa.CallInstruction
 	for _, call := range Calls(g, func(string) bool { return true }) {
 		h := StaticCallee(call)
 		if h == nil || !inModule(h) || !c13HasParam(h, c13PkgHTTP, "Response") {
 			continue
 		}
-		if c13ResultsAre(h, [2]string{c13PkgDigest, "Digest"}, [2]string{"", "error"}) {
+		if c13ResultsAre(h, [2]string{c13PkgDigest, "Digest"}, [2]string{"", "error"}) && !c13ReturnsHeaderDigest(h, 2) {
 			calc = append(calc, call)
 		}
 	}
@@ -630,6 +762,18 @@ func c13Generator(c *Ctx, RL, RG, RP string, g, V *ssa.Function) {
 	for _, p := range CallsTo(g, c13PkgDigest+".Parse", "digest.Parse") {
 		r := ErrFlow(p, ErrFlowOpts{})
 		c.Check(RP, gn+"|digest.Parse", p.Pos(), r.OK, r.How+r.Detail)
+	}
+	for _, call := range Calls(g, func(string) bool { return true }) {
+		h := StaticCallee(call)
+		if h == nil || !inModule(h) || len(h.Blocks) == 0 || !c13ReturnsHeaderDigest(h, 2) || ErrResultIndex(h.Signature) < 0 {
+			continue
+		}
+		r := ErrFlow(call, ErrFlowOpts{})
+		c.Check(RP, gn+"|"+FnName(h), call.Pos(), r.OK, r.How+r.Detail)
+		for _, p := range CallsTo(h, c13PkgDigest+".Parse", "digest.Parse") {
+			r := ErrFlow(p, ErrFlowOpts{})
+			c.Check(RP, FnName(h)+"|digest.Parse", p.Pos(), r.OK, r.How+r.Detail)
+		}
 	}
 	for _, k := range calc {
 		r := ErrFlow(k, ErrFlowOpts{})
@@ -901,6 +1045,31 @@ func c13R4(c *Ctx) {
 	}
 }
 
+// c13ExchangeFnOf: the function performing f's single HTTP exchange: f itself
+// or an in-module helper it (transitively, to the given depth) calls; top =
+// the calls in f that lead there.
+func c13ExchangeFnOf(f *ssa.Function, depth int) (E *ssa.Function, top []ssa.CallInstruction) {
+	if n := len(c13SendSites(f)); n == 1 {
+		return f, nil
+	} else if n > 1 || depth == 0 {
+		return nil, nil
+	}
+	for _, call := range Calls(f, func(string) bool { return true }) {
+		g := StaticCallee(call)
+		if g == nil || !inModule(g) || len(g.Blocks) == 0 || fnPkgPath(g) != fnPkgPath(f) || g == f {
+			continue
+		}
+		if e, _ := c13ExchangeFnOf(g, depth-1); e != nil {
+			if E != nil && E != e {
+				return nil, nil
+			}
+			E = e
+			top = append(top, call)
+		}
+	}
+	return E, top
+}
+
 // ---------- readSeekCloser ----------
 
 func c13Seek(c *Ctx) {
@@ -952,29 +1121,39 @@ func c13Seek(c *Ctx) {
 		return
 	}
 	pkg := "internal/httputil"
-	// Seek: exchange gated by 206
-	sites := c13SendSites(seek)
-	if len(sites) != 1 {
-		c.LostAnchor(RS, fmt.Sprintf("%s: exactly one HTTP exchange (found %d)", FnName(seek), len(sites)))
+	// Seek: the range request (in Seek itself or in a helper it calls, depth ≤ 3) is gated by 206
+	E, top := c13ExchangeFnOf(seek, 3)
+	if E == nil {
+		c.LostAnchor(RS, fmt.Sprintf("%s: exactly one HTTP exchange in Seek or its helpers", FnName(seek)))
 		return
 	}
-	site := sites[0]
+	site := c13SendSites(E)[0]
 	resp := ResultOf(site, 0)
 	if resp == nil {
 		c.Violation(RS, FnName(seek)+"|206", site.Pos(), "the response of the range request is discarded")
 		return
 	}
-	respAl := Aliases(resp)
-	status := c13FieldLoads(seek, c13PkgHTTP, "Response", "StatusCode", func(b ssa.Value) bool { return respAl[b] })
-	st := c13TestsOf(seek, status)
 	b, i := c13AfterSite(site)
-	bad := c13SuccessEscapes(seek, b, i, newCut().Edges(st.eq[206]...), nil)
-	c.Check(RS, FnName(seek)+"|206", site.Pos(), bad == nil,
-		ifelse(bad == nil, "after the range request success is reported only on the edge StatusCode == 206",
+	cut206, dir206 := c13FactCut(E, Aliases(resp), c13StatusFact([]int64{206}), 2)
+	bad := c13SuccessEscapes(E, b, i, cut206, dir206)
+	ok206 := bad == nil
+	if E != seek {
+		// the helper's failure must be Seek's failure
+		if ErrResultIndex(E.Signature) < 0 {
+			ok206 = false
+		}
+		for _, tc := range top {
+			if r := ErrFlow(tc, ErrFlowOpts{}); !r.OK {
+				ok206 = false
+			}
+		}
+	}
+	c.Check(RS, FnName(seek)+"|206", site.Pos(), ok206,
+		ifelse(ok206, "after the range request success is reported only on the edge StatusCode == 206",
 			"Seek can succeed although the server did not answer 206 Partial Content (a 200 would replay the blob from byte 0 at the new offset)"))
 	// the range request carries a Range header
 	hasRange := false
-	for _, call := range CallsTo(seek, "(net/http.Header).Set") {
+	for _, call := range CallsTo(E, "(net/http.Header).Set") {
 		if s, ok := constString(call.Common().Args[1]); ok && s == "Range" && MustPass(site.(ssa.Instruction), newCut().Instr(call.(ssa.Instruction))) {
 			hasRange = true
 		}
